@@ -130,6 +130,52 @@ impl SdoExpedited {
 @*/
 }
 
+/// headers decoded from the wire respect their declared bit widths (checked per type by the C19 harnesses)
+pub trait CoeServiceRequest: Sized {
+    spec fn wf(&self) -> bool;
+}
+impl CoeServiceRequest for SdoNormal { open spec fn wf(&self) -> bool { self.sdo_header.size <= 3 } }
+impl CoeServiceRequest for SdoExpedited { open spec fn wf(&self) -> bool { self.sdo_header.size <= 3 } }
+impl CoeServiceRequest for SdoSegmented { open spec fn wf(&self) -> bool { self.sdo_header.segment_data_size <= 7 } }
+
+/*@type file=src/mailbox/coe/headers.rs name=SdoInfoOpCode derive="Clone, Copy, PartialEq, Eq, Debug" @*/
+/*@type file=src/mailbox/coe/headers.rs name=SdoInfoHeader derive="Clone, Copy, PartialEq, Eq, Debug" @*/
+/*@type file=src/mailbox/coe/services.rs name=ObjectDescriptionListResponse derive="Clone, Copy, PartialEq, Debug" @*/
+/*@type file=src/subdevice/types.rs name=Mailbox derive="Clone, Copy, PartialEq, Debug" @*/
+
+impl ObjectDescriptionListResponse {
+    pub const PACKED_LEN: usize = 12;
+    /// derive output (C19): any headers may come back, or a wire error
+    #[verifier::external_body]
+    pub fn unpack_from_slice(buf: &[u8]) -> (r: Result<Self, WireError>)
+    { unimplemented!() }
+}
+pub assume_specification[ <SdoInfoOpCode as PartialEq>::eq ](a: &SdoInfoOpCode, b: &SdoInfoOpCode) -> (r: bool)
+    ensures r == (*a == *b);
+
+/// stand-in for heapless::Vec<u8, N>: a byte vector that refuses to grow past N
+pub struct HVec<const N: usize> { pub v: Vec<u8> }
+impl<const N: usize> HVec<N> {
+    pub open spec fn wf(&self) -> bool { self.v@.len() <= N }
+    #[verifier::external_body]
+    pub fn new() -> (r: Self) ensures r.v@.len() == 0 { unimplemented!() }
+    #[verifier::external_body]
+    pub fn extend_from_slice(&mut self, other: &[u8]) -> (r: Result<(), ()>)
+        requires old(self).wf()
+        ensures
+            final(self).wf(),
+            (r is Ok) == (old(self).v@.len() + other@.len() <= N),
+            r is Ok ==> final(self).v@ == old(self).v@ + other@,
+            r is Err ==> final(self).v@ == old(self).v@,
+    { unimplemented!() }
+}
+
+/// "the device answered request `req` with decoded headers `h` followed by the bytes `d`"
+pub uninterp spec fn replied<R>(req: R, h: R, d: Seq<u8>) -> bool;
+
+/// "this request was written to the SubDevice's mailbox and answered"
+pub uninterp spec fn exchanged<R>(req: R) -> bool;
+
 /// the CoE view of a SubDevice: the device side is `mailbox_write_read`, which may answer ANYTHING
 pub struct Coe { pub _p: u8 }
 impl Coe {
@@ -140,8 +186,27 @@ impl Coe {
     { unimplemented!() }
 
     #[verifier::external_body]
-    pub async fn mailbox_write_read<R>(&self, request: R) -> (r: Result<(R, ReceivedPdu), Error>)
+    pub async fn mailbox_write_read<R: CoeServiceRequest>(&self, request: R) -> (r: Result<(R, ReceivedPdu), Error>)
+        ensures r is Ok ==> (r->Ok_0).0.wf() && exchanged(request) && replied(request, (r->Ok_0).0, (r->Ok_0).1.data())
     { unimplemented!() }
+
+    /// the device's response mailbox: ANY bytes
+    #[verifier::external_body]
+    pub async fn wait_for_mailbox_response(&self, read_mailbox: &Mailbox) -> (r: Result<ReceivedPdu, Error>)
+    { unimplemented!() }
+
+/*@fragment file=src/mailbox/coe/mod.rs impl="impl<'maindevice, S> Coe<'maindevice, S>" fn=send_sdo_info_service from="const COE_HEADER_AND_LIST_TYPE_SIZE" to="if !headers.sdo_info_header.incomplete { break; } } }" name=sdo_info_collect qual="pub async" sig="&self, read_mailbox: Mailbox -> (r: Result<Option<HVec<0x1fffe>>, Error>)" tail="Ok(Some(buf))" subst="heapless::Vec::<u8, 0x1fffe>=>HVec::<0x1fffe>" props=C16
+    ensures
+        // never more than the fixed buffer
+        r is Ok && r->Ok_0 is Some ==> (r->Ok_0->Some_0).v@.len() <= 0x1fffe,
+@loop 0
+    invariant
+        buf.wf(),
+        responses_left <= 0x1_0000,
+    decreases responses_left
+@closure 0 "|_e: ()| -> (cr: Error)"
+    ensures cr == Error::Internal
+@*/
 
 /*@fn file=src/mailbox/coe/mod.rs impl="impl<'maindevice, S> Coe<'maindevice, S>" name=sdo_read_expedited subst="self.subdevice.mailbox_counter()=>self.mailbox_counter()@@impl Into<SubIndex>=>SubIndex@@let sub_index = sub_index.into();=>@@T: SdoExpeditedPayload=>T: EtherCrabWireReadSized" props=C15,C16
     // SdoExpeditedPayload is a crate-private marker implemented only for u8, u16, u32 and the 4-byte PDO `Mapping`
@@ -149,11 +214,73 @@ impl Coe {
     ensures true
 @*/
 
+/*@fn file=src/mailbox/coe/mod.rs impl="impl<'maindevice, S> Coe<'maindevice, S>" name=sdo_write subst="self.subdevice.mailbox_counter()=>self.mailbox_counter()@@impl Into<SubIndex>=>SubIndex@@let sub_index = sub_index.into();=>" props=C15,C16
+    ensures
+        value.packed().len() > 4 ==> r is Err,
+        // Ok => an expedited download carrying exactly the value's bytes (zero padded to 4), its length, index and sub-index,
+        //       with a mailbox counter in 1..=7, was exchanged with the device
+        r is Ok ==> exists|req: SdoExpedited| #[trigger] exchanged(req)
+            && 1 <= req.header.counter <= 7
+            && req.sdo_header.command == CoeCommand::Download && req.sdo_header.expedited_transfer
+            && req.sdo_header.index == index
+            && req.sdo_header.sub_index == (match sub_index { SubIndex::Complete => 1u8, SubIndex::Index(i) => i })
+            && req.sdo_header.complete_access == (sub_index is Complete)
+            && req.sdo_header.size as int == 4 - value.packed().len()
+            && req.data@.subrange(0, value.packed().len() as int) == value.packed()
+            && (forall|i: int| value.packed().len() <= i < 4 ==> req.data@[i] == 0),
+@before "let (_response, _data)"
+    proof {
+        let n = value.packed().len() as int;
+        assert(request.data == buf);
+        assert(buf@.subrange(0, n) == value.packed());
+        assert forall|i: int| n <= i < 4 implies buf@[i] == 0 by {
+            assert(buf@[i] == buf@.subrange(n, 4)[i - n]);
+        }
+        assert(request.sdo_header.size as int == 4 - n);
+    }
+@*/
+
 /*@fn file=src/mailbox/coe/mod.rs impl="impl<'maindevice, S> Coe<'maindevice, S>" name=sdo_read subst="self.subdevice.mailbox_counter()=>self.mailbox_counter()@@impl Into<SubIndex>=>SubIndex@@let sub_index = sub_index.into();=>" props=C15,C16 attr="#[verifier::loop_isolation(false)]"
-    ensures true
+    requires T::PACKED_LEN <= 0x7fff_ffff      // a destination type is not larger than isize::MAX bytes
+    ensures
+        // Ok(v) => an upload request for exactly (index, sub_index) with a counter in 1..=7 was answered, and
+        //  - expedited answer: v decodes the first 4-size bytes after the headers
+        //  - normal answer (complete size <= bytes present): v decodes the `length - 10` bytes after the 4-byte size field,
+        //    and an object larger than the destination is refused (TooLong), never truncated
+        //  - segmented answers are covered by the safety obligations only (ghost accumulation not built)
+        r is Ok ==> exists|req: SdoNormal, h: SdoNormal, d: Seq<u8>| #[trigger] replied(req, h, d)
+            && 1 <= req.header.counter <= 7 && req.sdo_header.command == CoeCommand::Upload && req.sdo_header.index == index
+            && req.sdo_header.sub_index == (match sub_index { SubIndex::Complete => 1u8, SubIndex::Index(i) => i })
+            && req.sdo_header.complete_access == (sub_index is Complete)
+            && (h.sdo_header.expedited_transfer ==> d.len() >= 4 - h.sdo_header.size
+                    && T::unpack_spec(d.subrange(0, 4 - h.sdo_header.size)) == Ok::<T, WireError>(r->Ok_0))
+            && (!h.sdo_header.expedited_transfer ==> d.len() >= 4 && le32(d) <= T::PACKED_LEN)
+            && (!h.sdo_header.expedited_transfer && le32(d) <= (if h.header.length >= 10 { h.header.length - 10 } else { 0 }) ==> ({
+                    let dl = if h.header.length >= 10 { (h.header.length - 10) as int } else { 0 };
+                    d.len() >= 4 + dl && T::unpack_spec(d.subrange(4, 4 + dl)) == Ok::<T, WireError>(r->Ok_0)
+                })),
+@after "let data: &[u8] = &response;"
+    let ghost req0 = request;
+    let ghost h0 = headers;
+    let ghost d0 = data@;
+@before "T::unpack_from_slice(response_payload).map_err"
+    proof {
+        let dl: int = if h0.header.length >= 10 { (h0.header.length - 10) as int } else { 0 };
+        if h0.sdo_header.expedited_transfer {
+            assert(response_payload@ == d0.subrange(0, 4 - h0.sdo_header.size as int));
+        } else {
+            assert(d0.len() >= 4);
+            assert(le32(d0) <= T::PACKED_LEN);
+            if le32(d0) <= dl {
+                assert(response_payload@ =~= d0.subrange(4, 4 + dl));
+            }
+        }
+        assert(replied(req0, h0, d0));
+    }
 @loop 0
     invariant
         total_len <= buf@.len(),
+        buf@.len() == T::PACKED_LEN,
     decreases buf@.len() - total_len
 @closure 0 "|_e: WireError| -> (cr: Error)"
     ensures cr == Error::Pdu(PduError::Decode)
